@@ -51,12 +51,12 @@ Call(op, t, accrue) ==
              /\ expo' = IF accrue THEN expo + (t - a0) ELSE expo
              /\ Log([op |-> op, t |-> t, out |-> okout, from |-> expo, span |-> t - a0])
 
-Query(dt) == /\ clk + dt <= MaxT /\ clk' = clk + dt
+Query(dt) == /\ dt <= MaxT - clk /\ clk' = clk + dt
              /\ Call("query", clk + dt, FALSE) /\ UNCHANGED lastReb
-Accrue(dt) == /\ clk + dt <= MaxT /\ clk' = clk + dt
+Accrue(dt) == /\ dt <= MaxT - clk /\ clk' = clk + dt
               /\ Call("accrue", clk + dt, TRUE) /\ UNCHANGED lastReb
 \* a rebalance that trades nothing accrues as well (and checkpoints: its time stamp must be new)
-Rebalance(dt) == /\ clk + dt <= MaxT /\ clk' = clk + dt
+Rebalance(dt) == /\ dt <= MaxT - clk /\ clk' = clk + dt
                  /\ clk + dt # lastReb
                  /\ Call("rebalance", clk + dt, TRUE)
                  /\ lastReb' = IF sign > 0 /\ clk + dt >= (IF acc = NoTime THEN clk + dt ELSE acc) THEN clk + dt ELSE lastReb
